@@ -4,6 +4,7 @@ import Driver.C13
 import Driver.C10
 import Driver.C03
 import Driver.C05
+import Driver.C09
 /-!
 Line-protocol driver.  Reads one JSON object per line on stdin, each with a field `p`
 naming the property slice and an `id`; writes one JSON object per line with the same `id`
@@ -18,6 +19,8 @@ def dispatch (j : Json) : Json :=
   | "C10" => Driver.C10.handle j
   | "C03" => Driver.C03.handle j
   | "C05" => Driver.C05.handle j
+  | "C09" => Driver.C09.handle j
+  | "C08" => Driver.C09.handle j
   | "C01" => Driver.C03.handle j
   | "C02" => Driver.C03.handle j
   | p => Json.mkObj [("bad-op", Json.str p)]
